@@ -750,14 +750,14 @@ private def A (r l : Nat) (w a : Bool) (ls : List Nat) (p : Bool) (rel : List (N
 
 /-- Artifact.Children -/
 def g0 : List Access := [
-  A 0 0 false false [] false [(1, .post), (2, .mid), (3, .mid), (4, .mid)],  -- app.collectArtifactsRec result.go:250 
-  A 0 0 true false [] false [(1, .post), (2, .mid), (3, .mid), (4, .mid)]  -- app.collectArtifactsRec$1 result.go:245 
+  A 0 0 false false [] false [(1, .post), (2, .mid), (3, .mid), (4, .mid)],  -- app.collectArtifactsRec result.go:256 
+  A 0 0 true false [] false [(1, .post), (2, .mid), (3, .mid), (4, .mid)]  -- app.collectArtifactsRec$1 result.go:251 
 ]
 
 /-- Artifact.Children[] -/
 def g1 : List Access := [
   A 0 1 false false [] false [(1, .post), (2, .mid), (3, .mid), (4, .mid)],  -- app.collectArtifacts result.go:212 
-  A 0 1 true false [] false [(1, .post), (2, .mid), (3, .mid), (4, .mid)]  -- app.collectArtifactsRec$1 result.go:245 
+  A 0 1 true false [] false [(1, .post), (2, .mid), (3, .mid), (4, .mid)]  -- app.collectArtifactsRec$1 result.go:251 
 ]
 
 /-- Result.Artifacts -/
@@ -2120,6 +2120,9 @@ def groups : List (List Access) := [
   g160, g161, g162, g163, g164, g165, g166, g167, g168, g169, g170, g171, g172, g173, g174, g175, 
   g176, g177, g178, g179, g180, g181, g182, g183, g184, g185, g186, g187, g188, g189, g190, g191]
 
-def table : Table := ⟨roots, groups⟩
+/-- locations written, in some function, after a pointer to the object was sent on a channel there -/
+def sentThenWritten : List Nat := []
+
+def table : Table := ⟨roots, groups, sentThenWritten⟩
 
 end Shk.Gen
